@@ -451,6 +451,17 @@ def stream_struct(tier, seed):
         group("block", b, fields, nb, tag="valid")
         for why, m in mutate(rng, b, fields, 3 if quick else 8):
             group("block", m, fields, nb, tag="mut:" + why, prefixes=(k % 4 == 0), maxbrk=6)
+    # every byte value as the FIRST byte of a script, of a script sig, and of the first / last element of a witness
+    # stack (a rule keyed on an opcode or tag byte: 0x50 annex, 0x6a OP_RETURN, 0x00 / 0x51 witness versions ...)
+    for bv in range(256):
+        tx = btc.rand_tx(rng, nin=1, nout=1, segwit=True)
+        tx["outs"][0]["spk"] = bytes([bv, 0x14]) + btc.rand_bytes(rng, 3)
+        tx["ins"][0]["sig"] = bytes([bv]) + btc.rand_bytes(rng, 2)
+        tx["wits"] = [[bytes([bv, 0x01]), b"\xaa", bytes([bv])]]
+        tb, tf = btc.tx_bytes(tx)
+        group("transaction", tb, tf, nbreak_tx(tx), tag="firstbyte", prefixes=False, exts=False, maxbrk=1)
+        wb, wf = btc.obj_bytes("witness", [b"\xaa\xbb", bytes([bv, 0x02, 0x03])])
+        group("witness", wb, wf, 0, tag="firstbyte", prefixes=False, exts=False)
     # blocks made of the smallest transactions the format allows (12-byte zero-input segwit, 51-byte one-input legacy
     # without outputs): any estimate of "how many transactions can fit" is wrong for them
     tiny_sw = {"version": 2, "ins": [], "outs": [], "segwit": True, "wits": [], "locktime": 0}
